@@ -223,6 +223,18 @@ def F10():
     return bad
 
 
+def F11():
+    """C02: an unpowered component reports a peak temperature of 0 instead of ambient"""
+    s = System("t", Source("S", vo=0.0))
+    s.add_comp("S", comp=Converter("r", vo=3.3, eff=0.9, rt=10.0))
+    s.add_comp("r", comp=ILoad("l", ii=1.0, rt=5.0))
+    s.add_source(Source("S2", vo=5.0))
+    s.add_comp("S2", comp=ILoad("l2", ii=1.0, rt=5.0))
+    df = s.solve(ta=25.0)
+    tp = df[df.Component == "r"]["Peak temp. (°C)"].values[0]
+    return [] if tp == 25.0 else ["dead Converter at ta=25 reports peak temperature %s" % tp]
+
+
 ALL = {k: v for k, v in globals().items() if k[0] == "F" and k[1:].isdigit()}
 if __name__ == "__main__":
     rc = 0
